@@ -561,6 +561,20 @@ class Interp:
                 idx = self.cls.__mro__.index(base)
                 prev = self.cls.__mro__[idx - 1] if idx > 0 else None
                 return self.call_method(f[2], args[0], args[1:], kw, st, glob, owner, depth, after=prev, fsrc=fsrc)
+        # ---- canonical spellings, so that contracts do not depend on the idiom a maintainer prefers:
+        #   dict() == {}                       np.matmul(a, b) == np.dot(a, b) == a @ b
+        #   np.argmax(x, axis=1) == x.argmax(axis=1) == x.argmax(1)     (same for sum / mean / max / min / ... / reshape / copy)
+        if isinstance(f, tuple) and f[0] == "builtin" and f[1] == "dict" and not args and not kw:
+            return [(st, ("dict", ()))]
+        if isinstance(f, tuple) and f[0] == "attr" and isinstance(f[1], tuple) and f[1][0] == "global":
+            import numpy
+            if glob.get(f[1][1]) is numpy:
+                if f[2] in ("matmul", "dot") and len(args) == 2 and not kw:
+                    return [(st, ("binop", "MatMult", args[0], args[1]))]
+                if f[2] in _METHOD_EQUIV and args:
+                    f, fsrc, args = ("attr", args[0], f[2]), f"{show(args[0])[:60]}.{f[2]}", args[1:]
+        if isinstance(f, tuple) and f[0] == "attr" and f[2] in _AXIS_FIRST and not args and kw and kw[0][0] == "axis":
+            args, kw = (kw[0][1],), kw[1:]
         if isinstance(f, tuple) and f[0] == "ite":
             # (A if c else B)(args): one path per branch, the condition joins the path condition
             out = []
@@ -680,6 +694,8 @@ class Interp:
         return out
 
 
+_AXIS_FIRST = frozenset(("argmax", "argmin", "sum", "mean", "max", "min", "prod", "any", "all", "std", "var", "cumsum", "squeeze"))
+_METHOD_EQUIV = _AXIS_FIRST | frozenset(("reshape", "copy", "flatten", "ravel", "transpose", "nonzero", "argsort", "astype", "tolist", "item"))
 _PURE_BUILTINS = frozenset(("dict", "list", "tuple", "set", "frozenset", "len", "int", "float", "bool", "str", "isinstance", "callable", "range"))
 _NEG = {"IsNot": "Is", "NotEq": "Eq", "NotIn": "In"}
 
